@@ -116,7 +116,10 @@ Worker0(ck, prev) ==
   [pc |-> "recv", files |-> <<[ck |-> ck, prev |-> prev]>>, batch |-> <<>>, nf |-> NoReq,
    bi |-> 0, res |-> "ok", done |-> 0, sf |-> FALSE, defer |-> <<>>]
 
-Down == [up |-> FALSE, fs |-> <<>>, cfg |-> [mr |-> -1, ms |-> -1, ci |-> -1, cc |-> -1, rb |-> -1, tr |-> TRUE]]
+Down == [up |-> FALSE, fs |-> <<>>, inst |-> 0, cfg |-> [mr |-> -1, ms |-> -1, ci |-> -1, cc |-> -1, rb |-> -1, tr |-> TRUE]]
+
+\* thread label of the worker of instance k
+WL(k) == "w" \o ToString(k)
 
 \* index-map entry: [i, id, ck, pos, off, p]  (pos = ordinal of the record inside its chunk file)
 \* closed chunk:    [ck, n, end, st]
@@ -163,7 +166,7 @@ EvR(op, res, seg, obs) ==
    seg |-> seg, obs |-> obs, seq |-> 0]
 EvFs(t, call, ck, off, len, res) ==
   [e |-> "fs", t |-> t, call |-> call, ck |-> ck, off |-> off, len |-> len, res |-> res, seq |-> 0]
-EvPt(p, a) == [e |-> "pt", t |-> "w", p |-> p, a |-> a, seq |-> 0]
+EvPt(p, a) == [e |-> "pt", t |-> "w", p |-> p, a |-> a, seq |-> 0]   \* (the monitor does not look at t of pt events)
 
 -----------------------------------------------------------------------------
 (* caller: one write record through append_and_apply (raft_log.rs:493)       *)
@@ -339,28 +342,28 @@ WStep(s, fault) ==
              len == SumSz(recs)
          IN IF fault
             THEN WNext(s, [w EXCEPT !.pc = "exit"],
-                       <<EvFs("w", "write", ck, off, len, -5), EvPt("exit", 1)>>, At("exit", 1))
+                       <<EvFs(WL(s.inst), "write", ck, off, len, -5), EvPt("exit", 1)>>, At("exit", 1))
             ELSE GotoWrite([s EXCEPT !.fs[j].recs = @ \o recs], w, w.bi + 1,
-                           <<EvFs("w", "write", ck, off, len, len)>>)
+                           <<EvFs(WL(s.inst), "write", ck, off, len, len)>>)
     [] w.pc = "sync_old" ->
          \* (fix 00be577) sync first, forget the file only when that succeeded
          LET ck == w.files[1].ck
              j == FsIdx(s.fs, ck)
          IN IF fault
-            THEN GotoCb(s, [w EXCEPT !.res = "err", !.sf = TRUE], 1, <<EvFs("w", "fdatasync", ck, 0, 0, -5)>>)
+            THEN GotoCb(s, [w EXCEPT !.res = "err", !.sf = TRUE], 1, <<EvFs(WL(s.inst), "fdatasync", ck, 0, 0, -5)>>)
             ELSE GotoSync([s EXCEPT !.fs[j].dur = Len(s.fs[j].recs)], [w EXCEPT !.files = Tail(@)],
-                          <<EvFs("w", "fdatasync", ck, 0, 0, 0)>>)
+                          <<EvFs(WL(s.inst), "fdatasync", ck, 0, 0, 0)>>)
     [] w.pc = "set_ev" ->
          WNext([s EXCEPT !.ev = w.files[1].prev], [w EXCEPT !.pc = "sync_new"], <<>>, At("fdatasync", 0))
     [] w.pc = "sync_new" ->
          LET ck == w.files[1].ck
              j == FsIdx(s.fs, ck)
          IN IF fault
-            THEN GotoCb(s, [w EXCEPT !.res = "err", !.sf = TRUE], 1, <<EvFs("w", "fdatasync", ck, 0, 0, -5)>>)
+            THEN GotoCb(s, [w EXCEPT !.res = "err", !.sf = TRUE], 1, <<EvFs(WL(s.inst), "fdatasync", ck, 0, 0, -5)>>)
             ELSE GotoCb([s EXCEPT !.fs[j].dur = Len(s.fs[j].recs)], [w EXCEPT !.res = "ok", !.sf = FALSE], 1,
-                        <<EvFs("w", "fdatasync", ck, 0, 0, 0)>>)
+                        <<EvFs(WL(s.inst), "fdatasync", ck, 0, 0, 0)>>)
     [] w.pc = "cb" ->
-         GotoCb(s, w, w.bi + 1, <<[e |-> "cb", fid |-> w.batch[w.bi].fid, ok |-> w.res = "ok", t |-> "w", seq |-> 0]>>)
+         GotoCb(s, w, w.bi + 1, <<[e |-> "cb", fid |-> w.batch[w.bi].fid, ok |-> w.res = "ok", t |-> WL(s.inst), seq |-> 0]>>)
     [] w.pc = "nf" ->
          IF w.nf.t = "A"
          THEN GotoDone(s, [w EXCEPT !.files = Append(@, [ck |-> w.nf.ck, prev |-> w.nf.prev])], <<>>)
@@ -372,9 +375,9 @@ WStep(s, fault) ==
          LET ck == w.defer[w.bi]
              j == FsIdx(s.fs, ck)
          IN IF fault
-            THEN WNext(s, [w EXCEPT !.pc = "exit"], <<EvFs("w", "unlink", ck, 0, 0, -5), EvPt("exit", 1)>>, At("exit", 1))
+            THEN WNext(s, [w EXCEPT !.pc = "exit"], <<EvFs(WL(s.inst), "unlink", ck, 0, 0, -5), EvPt("exit", 1)>>, At("exit", 1))
             ELSE LET s1 == [s EXCEPT !.fs[j].linked = FALSE]
-                     ev1 == <<EvFs("w", "unlink", ck, 0, 0, 0)>>
+                     ev1 == <<EvFs(WL(s.inst), "unlink", ck, 0, 0, 0)>>
                  IN IF w.bi < Len(w.defer)
                     THEN WNext(s1, [w EXCEPT !.bi = @ + 1], ev1, At("unlink", 0))
                     ELSE GotoDone(s1, [w EXCEPT !.defer = <<>>], ev1)
@@ -450,13 +453,13 @@ RecLoop(files, k, a) ==
                       !.closed = Append(@, [ck |-> f.ck, n |-> Len(f.recs), end |-> f.ck + len, st |-> rp.st, trunc |-> trunc]),
                       !.prevEnd = f.ck + len, !.lastLog = rp.st.l, !.fs = fs1, !.evs = opened \o tev])
 
-Recover(fs, cfg) ==
+Recover(fs, cfg, inst) ==
   LET lockev == <<EvFs("c", "opent", -1, 0, 0, 0), EvFs("c", "flock", -1, 0, 0, 0)>>
       a == RecLoop(Linked(fs), 1,
              [res |-> "ok", st |-> St0, idx |-> <<>>, cache |-> <<>>, csz |-> 0, ev |-> None, cfg |-> cfg,
               closed |-> <<>>, prevEnd |-> -1, lastLog |-> None, fs |-> fs, evs |-> lockev])
   IN
-  IF a.res # "ok" THEN [res |-> a.res, s |-> [Down EXCEPT !.fs = a.fs], evs |-> a.evs]
+  IF a.res # "ok" THEN [res |-> a.res, s |-> [Down EXCEPT !.fs = a.fs, !.inst = inst], evs |-> a.evs]
   ELSE
   LET n == Len(a.closed)
       reuse == n > 0 /\ ~a.closed[n].trunc
@@ -473,24 +476,24 @@ Recover(fs, cfg) ==
       cev == IF reuse THEN <<>> ELSE <<EvFs("c", "creat", ck2, 0, 0, 0), EvFs("c", "write", ck2, 0, head.sz, head.sz)>>
       prev == IF closed1 = <<>> THEN None ELSE closed1[Len(closed1)].st.l
   IN [res |-> "ok",
-      s |-> [up |-> TRUE, cfg |-> cfg, st |-> a.st, idx |-> a.idx, cache |-> a.cache, csz |-> a.csz, ev |-> a.ev,
+      s |-> [up |-> TRUE, inst |-> inst + 1, cfg |-> cfg, st |-> a.st, idx |-> a.idx, cache |-> a.cache, csz |-> a.csz, ev |-> a.ev,
              closed |-> closed1, open |-> open1, pend |-> <<>>, removed |-> <<>>, sent |-> 0, q |-> <<>>,
              closedch |-> FALSE, w |-> Worker0(open1.ck, prev), fs |-> fs2],
       evs |-> a.evs \o cev \o <<EvPt("recv", 0)>>]
 
-CallOpen(fs, cfg) ==
-  LET x == Recover(fs, cfg)
+CallOpen(d, cfg) ==
+  LET x == Recover(d.fs, cfg, d.inst)
       o == IF x.res = "ok" THEN Obs(x.s) ELSE [none |-> 0]
   IN [s |-> x.s, res |-> x.res,
       evs |-> <<EvB("open", cfg)>> \o x.evs \o
               <<[e |-> "r", op |-> "open", res |-> x.res, rc |-> IF x.res = "ok" THEN "ok" ELSE "err", cls |-> x.res,
-                 seg |-> <<0, 0>>, obs |-> o, wl |-> "w", dir |-> DirListing(x.s.fs), seq |-> 0]>>]
+                 seg |-> <<0, 0>>, obs |-> o, wl |-> WL(x.s.inst), dir |-> DirListing(x.s.fs), seq |-> 0]>>]
 
 \* clean drop (fix 6b81948): close the channel, the worker drains the queue and quits, then the lock goes
 CallDrop(s) ==
   LET x == RunIdle([s EXCEPT !.closedch = TRUE], <<>>, 0)
       y == IF x.s.w.pc = "exit" THEN x ELSE LET z == WStep(x.s, FALSE) IN [s |-> z.s, evs |-> x.evs \o z.evs, n |-> x.n + 1]
-  IN [s |-> [Down EXCEPT !.fs = y.s.fs, !.cfg = s.cfg],
+  IN [s |-> [Down EXCEPT !.fs = y.s.fs, !.cfg = s.cfg, !.inst = s.inst],
       evs |-> <<EvB("drop", [none |-> 0])>> \o y.evs \o
               <<EvFs("c", "funlock", -1, 0, 0, 0),
                 [e |-> "r", op |-> "drop", res |-> "ok", rc |-> "ok", cls |-> "ok", seg |-> <<0, 0>>, seq |-> 0]>>]
